@@ -162,16 +162,18 @@ Print Assumptions C10_name_only_key_refuted.
 
 (* 8c. state that outlives one check, regenerated from the seven files: every module- or
        class-level mutable object that is stored through is audited, the only process-global
-       cache is `_empty_constrained.resolution_cache`, and every cache lookup/store of the
-       seven files uses exactly the pinned key expression *)
+       cache is `_empty_constrained.resolution_cache`, whose key -- analysed field by field, not as
+       text -- takes varname, node and state over from the lookup context unchanged; every other
+       cache lookup/store of the seven files uses exactly the pinned key expression *)
 Theorem C10_global_state_classified :
   forallb state_classified state_items = true /\ state_audit_live state_items = true /\
-  cache_keys = pinned_cache_keys /\
+  cache_keys = pinned_cache_keys /\ resolution_key_ok resolution_key_fields = true /\
   map st_name (filter (fun s => match lookup_state s state_audit with Some (SProcessCache _) => true | _ => false end) state_items)
   = ["_empty_constrained"%string].
 Proof.
   destruct all_state_items_classified as [H1 H2]. split; [exact H1|]. split; [exact H2|].
-  split; [apply keys_eqb_eq; exact cache_keys_are_pinned|exact process_global_caches_are_exactly].
+  split; [apply keys_eqb_eq; exact cache_keys_are_pinned|].
+  split; [exact resolution_cache_key_keeps_what_determines_the_result|exact process_global_caches_are_exactly].
 Qed.
 Print Assumptions C10_global_state_classified.
 
